@@ -59,15 +59,17 @@ def main() -> int:
     finally:
         sh(["git", "-C", "/repo", "worktree", "remove", "--force", wt])
     # ---- run the check against the patched /repo -----------------------------
+    outdir = ""
     try:
         assert sh(["git", "-C", "/repo", "apply", str(patch)]).returncode == 0
-        c = sh([str(ROOT / "check"), prop, "--tier", tier], cwd=str(ROOT), timeout=7200)
+        outdir = tempfile.mkdtemp(prefix="seedout-")
+        c = sh([str(ROOT / "check"), prop, "--tier", tier], cwd=str(ROOT), timeout=7200, env=dict(os.environ, VERIF_OUT=outdir))
         out["check_exit"] = c.returncode
         out["check_lines"] = [ln[:300] for ln in c.stdout.splitlines() if ln.startswith(("VIOLATION", "INCONCLUSIVE", "HELD", "  violation:"))][:6]
         out["caught"] = c.returncode == 1 and any(ln.startswith("VIOLATION") for ln in c.stdout.splitlines())
     finally:
         sh(["git", "-C", "/repo", "checkout", "--", "."])
-        subprocess.run(["rm", "-rf", str(ROOT / "replays" / prop)], check=False)  # noqa: S603, S607
+        subprocess.run(["rm", "-rf", outdir], check=False)  # noqa: S603, S607
     print(json.dumps(out, indent=1))
     return 0
 
